@@ -8,4 +8,4 @@ run_one() {
   if echo "$out" | grep -q "== $prop rc=1"; then echo "reported  $id"; else echo "MISSED    $id :: $(echo "$out" | grep -v WARNING | tr '\n' ' ' | cut -c1-200)"; fi
 }
 export -f run_one
-ls -d seeded/*/ | sed 's#/$##' | xargs -P 12 -I{} bash -c 'run_one {}' | sort
+ls -d seeded/C*/ | sed 's#/$##' | xargs -P 12 -I{} bash -c 'run_one {}' | sort
